@@ -16,6 +16,8 @@ ROWS = {
     'isbn.to_isbn10': ('isbn', 'to_isbn10', 'isbn', ('isbn', 'to_isbn13'), lambda v: len(v) == 13),
     'isbn.format_convert': ('isbn', 'format', 'isbn', None, lambda v: len(v) == 10),       # format(x, convert=True): the ISBN-13 layout
     'isbn.validate_convert': ('isbn', 'validate', 'isbn', ('isbn', 'to_isbn10'), lambda v: len(v) == 10),
+    'isan.add_check_digits': ('isan', 'validate', 'isan', None, None),      # validate(x, add_check_digits=True)
+    'isan.strip_check_digits': ('isan', 'validate', 'isan', None, None),    # validate(x, strip_check_digits=True)
     'ismn.to_ismn13': ('ismn', 'to_ismn13', 'ismn', None, None),
     'issn.to_ean': ('issn', 'to_ean', 'ean', None, None),
     'cusip.to_isin': ('cusip', 'to_isin', 'isin', None, None),
@@ -92,6 +94,10 @@ def worker(unit, emit):
             opts = [{}] + [{'issue_code': '%02d' % rnd.randrange(100)} for _ in range(p['issue_codes'])]
         if row in ('isbn.format_convert', 'isbn.validate_convert'):
             opts = [{'convert': True}]
+        if row == 'isan.add_check_digits':
+            opts = [{'add_check_digits': True}]
+        if row == 'isan.strip_check_digits':
+            opts = [{'strip_check_digits': True}]
         if row == 'de.stnr.to_country_number':
             from stdnum.de import stnr
             opts = [{'region': r} for r in p['regions'] if stnr.is_valid(v, r)]
@@ -105,7 +111,7 @@ def worker(unit, emit):
                     dv = lib.call(dst.validate, wtxt, **dkw)
                 else:
                     dv = NONE
-                e = {'row': row, 'v': lib.cps(v), 'w': sl(w), 'dv': sl(dv), 'hasinv': False, 'inv': sl(NONE), 'invwant': [],
+                e = {'row': row, 'v': lib.cps(v), 'pres': lib.cps(x), 'w': sl(w), 'dv': sl(dv), 'hasinv': False, 'inv': sl(NONE), 'invwant': [],
                      'opt': lib.cps(kw.get('issue_code', '00'))}
                 if inv and wtxt is not None:
                     im = lib.module(inv[0])
